@@ -41,6 +41,9 @@ fn generate_book_data() -> Result<(), BuildError> {
             book = book_contents
                 .trim()
                 .split("\n\n")
+                // Games separated by more than one blank line leave a chunk that starts with
+                // a newline; without trimming those games were silently left out of the book
+                .map(|c| c.trim())
                 .filter(|c| c.starts_with("1."))
                 .try_fold(book, |mut book, movetext| {
                     let moves = BookParser::parse_movetext(movetext, &hasher)
